@@ -64,6 +64,7 @@ type fnInfo struct {
 }
 
 type GuardEngine struct {
+	predDepth int // nesting of one-line predicate expansion in decompose
 	p     *Program
 	pv    *Prov
 	infos map[*ssa.Function]*fnInfo
@@ -270,7 +271,44 @@ func (ge *GuardEngine) definitelyRejects(fi *fnInfo, b *ssa.BasicBlock, rv ssa.V
 			}
 			if al, ok := ge.pv.resolve(x.X).(*ssa.Alloc); ok {
 				whole, _ := ge.pv.storesTo(al, -1)
-				if len(whole) > 0 {
+				// the cell starts out nil: its stores say something only if one of them certainly ran before this load
+				initialised := false
+				for _, r := range *al.Referrers() {
+					if st, isSt := r.(*ssa.Store); isSt && st.Addr == ssa.Value(al) && st.Block() != nil && x.Block() != nil && st.Block().Parent() == x.Block().Parent() {
+						if (st.Block() == x.Block() && instrBefore(st, x)) || (st.Block() != x.Block() && st.Block().Dominates(x.Block())) {
+							if _, self := st.Val.(*ssa.UnOp); !self {
+								initialised = true
+							}
+						}
+					}
+				}
+				if !initialised && x.Block() != nil && al.Block() != nil && al.Block().Parent() != x.Block().Parent() {
+					// read inside a closure: initialised if a store ran before every closure that captures the cell was made
+					var mcs []*ssa.MakeClosure
+					var sts []*ssa.Store
+					for _, r := range *al.Referrers() {
+						switch y := r.(type) {
+						case *ssa.MakeClosure:
+							mcs = append(mcs, y)
+						case *ssa.Store:
+							if _, self := y.Val.(*ssa.UnOp); y.Addr == ssa.Value(al) && !self {
+								sts = append(sts, y)
+							}
+						}
+					}
+					ok := len(mcs) > 0
+					for _, mc := range mcs {
+						before := false
+						for _, st := range sts {
+							if (st.Block() == mc.Block() && instrBefore(st, mc)) || (st.Block() != mc.Block() && st.Block().Dominates(mc.Block())) {
+								before = true
+							}
+						}
+						ok = ok && before
+					}
+					initialised = ok
+				}
+				if len(whole) > 0 && initialised {
 					all := true
 					for _, w := range whole {
 						if !ge.definitelyRejects(fi, b, w, depth+1) {
@@ -316,7 +354,7 @@ func (ge *GuardEngine) definitelyRejects(fi *fnInfo, b *ssa.BasicBlock, rv ssa.V
 		} else {
 			continue
 		}
-		if other != rv {
+		if other != rv && !sameCellReload(other, rv, d, b) {
 			continue
 		}
 		if bo.Op == token.NEQ && edgeDominates(d, 0, cur) {
@@ -327,6 +365,49 @@ func (ge *GuardEngine) definitelyRejects(fi *fnInfo, b *ssa.BasicBlock, rv ssa.V
 		}
 	}
 	return false
+}
+
+// sameCellReload: tested and returned are two loads of the same variable cell (a named result or a variable a
+// closure captures), the return block directly follows the test and nothing in it before the second load can
+// write the cell (no store, no call).
+func sameCellReload(tested, returned ssa.Value, d, b *ssa.BasicBlock) bool {
+	l1, ok1 := tested.(*ssa.UnOp)
+	l2, ok2 := returned.(*ssa.UnOp)
+	if !ok1 || !ok2 || l1.Op != token.MUL || l2.Op != token.MUL || l1.X != l2.X {
+		return false
+	}
+	if l2.Block() != b || (b != d.Succs[0] && b != d.Succs[1]) || len(b.Preds) != 1 {
+		return false
+	}
+	for _, in := range b.Instrs {
+		if in == ssa.Instruction(l2) {
+			break
+		}
+		if st, isSt := in.(*ssa.Store); isSt && st.Addr == l2.X {
+			if ld, isLd := st.Val.(*ssa.UnOp); isLd && ld.Op == token.MUL && ld.X == l2.X {
+				continue // "return err" with a named result stores the value it just loaded
+			}
+		}
+		switch in.(type) {
+		case *ssa.Store, *ssa.Call, *ssa.Go, *ssa.Defer:
+			return false
+		}
+	}
+	// and nothing after the first load in the testing block
+	after := false
+	for _, in := range d.Instrs {
+		if in == ssa.Instruction(l1) {
+			after = true
+			continue
+		}
+		if after {
+			switch in.(type) {
+			case *ssa.Store, *ssa.Call, *ssa.Go, *ssa.Defer:
+				return false
+			}
+		}
+	}
+	return l1.Block() == d
 }
 
 // edgeDominates: every path from d to b goes through d's successor number i.
@@ -351,6 +432,22 @@ var cmpCallRe = regexp.MustCompile(`^call types\.\((Currency|\*Currency)\)\.Cmp\
 // decompose renders a boolean SSA value as (L, op, R) meaning "L op R".
 func (ge *GuardEngine) decompose(v ssa.Value, env *Env) (string, string, string) {
 	switch x := v.(type) {
+	case *ssa.Call:
+		// an unexported one-line predicate ("func (s State) v2Allowed() bool { return a >= b }") reads as its
+		// comparison; exported predicates (Currency.IsZero) are API and keep their name
+		if callee := x.Call.StaticCallee(); callee != nil && !x.Call.IsInvoke() && len(callee.Blocks) == 1 && ge.p.InModule(callee) && callee.Object() != nil && !callee.Object().Exported() && callee.Signature.Results().Len() == 1 && ge.predDepth < 3 {
+			if ret, ok := callee.Blocks[0].Instrs[len(callee.Blocks[0].Instrs)-1].(*ssa.Return); ok && len(ret.Results) == 1 {
+				if bo, isCmp := ret.Results[0].(*ssa.BinOp); isCmp {
+					switch bo.Op {
+					case token.EQL, token.NEQ, token.LSS, token.LEQ, token.GTR, token.GEQ:
+						ge.predDepth++
+						l, op, r := ge.decompose(bo, ge.calleeEnv(callee, &x.Call, env))
+						ge.predDepth--
+						return l, op, r
+					}
+				}
+			}
+		}
 	case *ssa.UnOp:
 		if x.Op == token.NOT {
 			l, op, r := ge.decompose(x.X, env)
@@ -713,6 +810,58 @@ func (ge *GuardEngine) ctxEdges(fi *fnInfo, b *ssa.BasicBlock, env *Env) []ctxEd
 	return out
 }
 
+// missingWhile: the first required continuation condition that does not dominate the guard (at any level of
+// its call chain). Continuation conditions are the staying sides of the loop tests that ctxEdges leaves out.
+func (ge *GuardEngine) missingWhile(g Guard, need []string) string {
+	if len(need) == 0 {
+		return ""
+	}
+	var have []string
+	for _, st := range g.Sites {
+		fi := ge.info(st.Fn)
+		for cur := st.Block; cur != nil; cur = cur.Idom() {
+			d := cur.Idom()
+			if d == nil || len(d.Instrs) == 0 {
+				break
+			}
+			ifi, ok := d.Instrs[len(d.Instrs)-1].(*ssa.If)
+			if !ok || !fi.isLoopTest(d) {
+				continue
+			}
+			edge := -1
+			if edgeDominates(d, 0, cur) {
+				edge = 0
+			} else if edgeDominates(d, 1, cur) {
+				edge = 1
+			}
+			if edge < 0 {
+				continue
+			}
+			saved := ge.pv.loadCtx
+			ge.pv.loadCtx = []ssa.Instruction{ifi}
+			l, op, r := ge.decompose(ifi.Cond, st.Env)
+			ge.pv.loadCtx = saved
+			if edge == 1 {
+				op = negOp[op]
+			}
+			have = append(have, l+" "+op+" "+r)
+		}
+	}
+	for _, n := range need {
+		re := regexp.MustCompile(n)
+		found := false
+		for _, h := range have {
+			if re.MatchString(h) {
+				found = true
+			}
+		}
+		if !found {
+			return n
+		}
+	}
+	return ""
+}
+
 // Guards collects the guards of fn (under env) and, recursively, of the callees whose rejection
 // propagates to fn's rejection.
 func (ge *GuardEngine) Guards(fn *ssa.Function, env *Env, chain []string, ctx []string, depth int, seen map[*ssa.Function]int) []Guard {
@@ -828,6 +977,15 @@ func (ge *GuardEngine) guardsRec(fn *ssa.Function, env *Env, chain []string, ctx
 		}
 		g.Ctx = append(append([]string{}, ctx...), ge.condCtx(fi, b, env)...)
 		g.Sites = append(append([]Site{}, sites...), Site{fn, b, env})
+		if rows := ge.pv.expandTable(g.L, g.R); len(rows) > 0 {
+			// a condition on the rows of a local literal table, inside the loop over it: one guard per row
+			for _, row := range rows {
+				rg := g
+				rg.L, rg.R = row[0], row[1]
+				out = append(out, rg)
+			}
+			continue
+		}
 		out = append(out, g)
 		// "a != b" over small arrays rejects iff some element differs: one disjunct per element
 		if g.Op == "!=" {
@@ -969,6 +1127,7 @@ type GuardReq struct {
 	All        bool  // search the guards of every function and closure reachable from the entry, not only error-propagating calls
 	LFn        func(string) bool // when set, decides the left operand instead of the L pattern (argument-order-insensitive rows)
 	RFn        func(string) bool // likewise for the right operand
+	While      []string          // conditions that must hold whenever the guard is evaluated (loop-continuation tests that dominate it): the guard must not reject where the property accepts
 }
 
 type guardCache struct {
@@ -1094,6 +1253,18 @@ func (ge *GuardEngine) CheckReq(c *Ctx, rule string, req GuardReq, guards []Guar
 		c.Fail(rule, req.ID, req.Entry, fmt.Sprintf("required guard not found on any path from %s: rejects iff /%s/ %v /%s/ — %s", req.Entry, req.L, req.Ops, req.R, req.Clause))
 		return
 	}
+	// a While row is also a statement about over-rejection: EVERY guard of that form must sit behind the condition
+	if len(req.While) > 0 {
+		for _, cd := range cands {
+			if !opIn(cd.op, req.Ops) {
+				continue
+			}
+			if miss := ge.missingWhile(cd.g, req.While); miss != "" {
+				c.Fail(rule, req.ID, c.P.Pos(cd.g.Pos), fmt.Sprintf("the guard (rejects iff %s %s %s) is evaluated, and can reject, even when not /%s/ — %s", cd.g.L, cd.g.Op, cd.g.R, miss, req.Clause))
+				return
+			}
+		}
+	}
 	var problems []string
 	type splitCand struct {
 		g           Guard
@@ -1113,6 +1284,10 @@ func (ge *GuardEngine) CheckReq(c *Ctx, rule string, req GuardReq, guards []Guar
 		}
 		if cd.g.Weak && !req.Weak {
 			problems = append(problems, fmt.Sprintf("%s: the comparison does not by itself lead to rejection (only in conjunction with other conditions)", where))
+			continue
+		}
+		if miss := ge.missingWhile(cd.g, req.While); miss != "" {
+			problems = append(problems, fmt.Sprintf("%s: the guard is evaluated (and can reject) even when not /%s/", where, miss))
 			continue
 		}
 		if why := ge.siteProblemsOpt(cd.g, ctxRes, req.LoopExitOK); why != "" {
@@ -1474,11 +1649,47 @@ func (ge *GuardEngine) bypassPath(fi *fnInfo, g *ssa.BasicBlock, legit map[[2]in
 		if p := search(starts, body, h); p != "" {
 			return p
 		}
+		// the guard speaks about every element only if the walk reaches every element: an accepting exit out of
+		// the loop body other than the loop's own termination test skips the remaining ones
+		if p := ge.earlyAcceptingExit(fi, h, legit); p != "" {
+			return p + " (loop left early)"
+		}
 		avoid = h
 	}
 	if len(fn.Blocks) > 0 && fn.Blocks[0] != avoid {
 		if p := search([]*ssa.BasicBlock{fn.Blocks[0]}, nil, nil); p != "" {
 			return p
+		}
+	}
+	return ""
+}
+
+// earlyAcceptingExit: an edge from inside the body of the loop headed by h (not from the header itself) to a
+// block outside it from which the function can still accept.
+func (ge *GuardEngine) earlyAcceptingExit(fi *fnInfo, h *ssa.BasicBlock, legit map[[2]int]bool) string {
+	body := fi.loopBody[h]
+	var bs []*ssa.BasicBlock
+	for b := range body {
+		bs = append(bs, b)
+	}
+	sort.Slice(bs, func(i, j int) bool { return bs[i].Index < bs[j].Index })
+	for _, b := range bs {
+		if b == h {
+			continue
+		}
+		for i, sc := range b.Succs {
+			if body[sc] || !fi.canAccept[sc] || legit[[2]int{b.Index, i}] || fi.rejEdge[[2]*ssa.BasicBlock{b, sc}] {
+				continue
+			}
+			pos := ""
+			if len(b.Instrs) > 0 {
+				if ifi, ok := b.Instrs[len(b.Instrs)-1].(*ssa.If); ok && ifi.Cond.Pos().IsValid() {
+					pos = ge.p.Pos(ifi.Cond.Pos())
+				} else if p := b.Instrs[len(b.Instrs)-1].Pos(); p.IsValid() {
+					pos = ge.p.Pos(p)
+				}
+			}
+			return "the loop can be left towards acceptance from inside its body at " + pos
 		}
 	}
 	return ""
